@@ -22,6 +22,80 @@ def in_scope(fn):
     return "yaserde_tests" not in fn
 
 
+def _same_slice(B, a_ops, b_ops):
+    """do two operands denote the same slice: the same named constant, or the same local / parameter place?"""
+    def keys(op):
+        ks = set()
+        for o in M.trace(B, op, M.IDENTITY_CALLS + ("str>::as_bytes", "[T]>::iter", "Vec<T, A>::as_slice", "ops::Deref::deref")):
+            if o.kind == "const":
+                ks.add(("const", str(o.const.get("uneval") or o.const.get("text"))))
+            elif o.kind in ("arg", "upvar"):
+                ks.add((o.kind, getattr(o, "local", getattr(o, "index", None)), tuple(o.fields())))
+            else:
+                return None
+        return ks
+    ka, kb = keys(a_ops), keys(b_ops)
+    return bool(ka) and ka == kb
+
+
+def _range_lower_bound(F, const_path):
+    """lower bound of a named constant `lo..=hi` / `lo..hi` with a literal lower bound, else None"""
+    b = F.lib.body(const_path) if const_path else None
+    if b is None or b.get("hir") is None:
+        return None
+    from engine.rulekit import hir as Hh
+    v = Hh.strip(Hh.norm_body(b)["value"])
+    if v.get("k") == "Call" and str(Hh.callee_path(v) or "").startswith("std::ops::Range") and v["args"]:
+        lo = Hh.strip(v["args"][0])
+        if lo.get("k") == "Lit" and lo.get("lit") == "int":
+            return lo["v"]
+    return None
+
+
+def guarded_bounds(F, B, bb, t):
+    """Is the index of this bounds check inside the slice on every path that reaches it?
+    (a) the index is what `binary_search*` on the same slice answered with `Ok(i)` (i < len by its contract);
+    (b) the index is a constant c and the check is dominated by the taken arm of `RANGE.contains(&s.len())` for the same `s`, with
+        RANGE a named constant whose lower bound is above c."""
+    if not str(t.get("msg", "")).startswith("BoundsCheck"):
+        return None
+    cond = t.get("cond")
+    ds = B.defs().get(cond["p"]["l"], []) if cond and cond.get("k") in ("copy", "move") else []
+    if len(ds) != 1 or ds[0][0] != "assign" or ds[0][3].get("k") != "binop" or ds[0][3].get("op") != "Lt":
+        return None
+    idx_op, len_op = ds[0][3]["a"], ds[0][3]["b"]
+    lds = B.defs().get(len_op["p"]["l"], []) if len_op.get("k") in ("copy", "move") else []
+    if len(lds) != 1 or lds[0][0] != "assign" or lds[0][3].get("k") != "unop" or lds[0][3].get("op") != "PtrMetadata":
+        return None
+    base_op = lds[0][3]["a"]
+    idx = M.trace(B, idx_op, ())
+    # (a)
+    if idx and all(o.kind == "call" and (M.Body.callee_decl(o.term) or "").rsplit("::", 1)[-1].startswith("binary_search")
+                   and any(isinstance(p_, dict) and p_.get("downcast") == "Ok" for p_ in o.proj) for o in idx):
+        if all(o.term.get("args") and _same_slice(B, o.term["args"][0], base_op) for o in idx):
+            return "the index is the position a bisection of the same slice answered with"
+    # (b)
+    if len(idx) == 1 and idx[0].kind == "const" and isinstance(idx[0].const.get("bits"), int):
+        c = idx[0].const["bits"]
+        for cbb, ct in B.calls():
+            if not (M.Body.callee_decl(ct) or "").endswith("RangeInclusive::<Idx>::contains") or len(ct.get("args") or []) != 2:
+                continue
+            rng = [o for o in M.trace(B, ct["args"][0], ())]
+            lo = None
+            if len(rng) == 1 and rng[0].kind == "const":
+                lo = _range_lower_bound(F, str(rng[0].const.get("uneval") or ""))
+            if lo is None or lo <= c:
+                continue
+            ns = M.trace(B, ct["args"][1], ())
+            if not (ns and all(o.kind == "call" and (M.Body.callee_decl(o.term) or "").endswith(("str>::len", "[T]>::len", "String::len", "Vec::<T, A>::len"))
+                               and _same_slice(B, o.term["args"][0], base_op) for o in ns)):
+                continue
+            sw = B.term(ct["target"]) if ct.get("target") is not None else {}
+            if sw.get("k") == "switch" and [v for v, _ in sw["targets"]] == [0] and B.dominates(sw["otherwise"], bb):
+                return f"the length was found inside a range that starts at {lo}"
+    return None
+
+
 def guarded_unwrap(B, bb, t):
     """`x.unwrap()` dominated by the Some/Ok arm of a test on the same place (is_some()/is_ok()/discriminant)."""
     recv = M.trace(B, t["args"][0], ())
@@ -249,6 +323,12 @@ def run(ck, F):
             n_guarded += 1
             ck.ok("R1", f"{what}#{n}:guarded", site, f"{what} dominated by a test of the same value", fn=fn)
             continue
+        if t.get("k") == "assert":
+            why = guarded_bounds(F, B, bb, t)
+            if why:
+                n_guarded += 1
+                ck.ok("R1", f"assert:BoundsCheck#{n}:guarded", site, f"index in bounds: {why}", fn=fn)
+                continue
         ck.violation("R1", f"{what}#{n}", site, f"{what}: input-dependent panic reachable from the public API", fn=fn)
     ck.count("R1:bodies scanned", sum(1 for b in scans.bodies(F.lib) if in_scope(b["path"])))
     if not hits:
